@@ -205,6 +205,7 @@ const (
 	KindEcho  = 'E' // server answers with one DirDown message
 	KindSink  = 'S' // server only records
 	KindBurst = 'B' // server answers with N DirDown messages
+	KindEmpty = 'Z' // a message with no content at all (the server only records it)
 )
 
 // StreamInfo is the decoded header of a stream message.
